@@ -658,8 +658,12 @@ def _string_class(case):
 # ---------------------------------------------------------------------------------------------
 # sub: dec  {"enc": codec, "s": str}    apply_target_encoding
 
-DEC_CHARS = escape.DEC_SPECIAL_CHARS
-ALT_CHARS = escape.ALT_DEC_SPECIAL_CHARS
+# The VT100 special graphics set (DEC STD 070 / xterm ctlseqs "DEC Special Character and Line Drawing Set"),
+# transcribed here: byte 0x60..0x7e -> glyph.  0x5f is a blank in the standard; urwid documents U+25AE for it.
+# Not imported from urwid.display.escape, so that a damaged table there is a violation and not the oracle.
+ALT_CHARS = "_`abcdefghijklmnopqrstuvwxyz{|}~"
+DEC_CHARS = "\u25ae\u25c6\u2592\u2409\u240c\u240d\u240a\u00b0\u00b1\u2424\u240b\u2518\u2510\u250c\u2514\u253c\u23ba\u23bb\u2500\u23bc\u23bd\u251c\u2524\u2534\u252c\u2502\u2264\u2265\u03c0\u2260\u00a3\u00b7"
+assert len(ALT_CHARS) == len(DEC_CHARS) == 32
 
 
 def check_dec(case):
